@@ -10,7 +10,8 @@
    byte-exact generator correspondence and judged on the reference machine. *)
 From Coq Require Import ZArith List String Bool.
 From Gigue Require Import Types Bits Isa Enc GenTables Builder BuilderTies Samplers Generator Machine MachineLemmas
-  SplitProofs FragProofs GenLemmas ImageSem CtorSpec C12Defs C12Proofs GenWF GenWFProps SliceLemmas FloatSign GenWF2 BodyExec BodyBridge GenWF5 FrameExec CodeMem SwitchExec GenWF6 GenWF4 GenWF7 GenWF8 GenWF9 Walk CallFrame MethodContract CallFrameRimi MethodContractRimi SaveRestore TrampExec TrampsInv TrampStubs WholeImage Loader Witness LoaderWitness WholeImageRimi LoaderRimi LoaderWitnessRimi RimiFullExec WholeImageRimiFull LoaderRimiFull LoaderWitnessRimiFull.
+  SplitProofs FragProofs GenLemmas ImageSem CtorSpec C12Defs C12Proofs GenWF GenWFProps SliceLemmas FloatSign GenWF2 BodyExec BodyBridge GenWF5 FrameExec CodeMem SwitchExec GenWF6 GenWF4 GenWF7 GenWF8 GenWF9 Walk CallFrame MethodContract CallFrameRimi MethodContractRimi SaveRestore TrampExec TrampsInv TrampStubs WholeImage Loader Witness LoaderWitness WholeImageRimi LoaderRimi LoaderWitnessRimi RimiFullExec WholeImageRimiFull LoaderRimiFull LoaderWitnessRimiFull
+  GenWF9F WalkK FixerTamper FixerCall MethodContractFixer WholeImageFixer LoaderFixer WitnessFixer LoaderWitnessFixer.
 Import ListNotations.
 Open Scope Z_scope.
 
@@ -310,6 +311,35 @@ Theorem C01_rimifull_image_from_files_nonvacuous :
   existsb (fun m => negb (m_is_leaf m)) (im_methods wimg_f) = true /\ 8 < FSW wimg_f.
 Proof. split; [exact rimifull_image_from_files_nonvacuous|]. split; [exact ws0_init_f|exact wimg_shape_f]. Qed.
 
+(* PROVED: PROPERTY C01 OVER THE EMITTED FILES FOR THE FIXER VARIANT
+   (LoaderFixer.fixer_image_from_files; WholeImageFixer; MethodContractFixer): from
+   ImageSem.Init (empty CFI stack) the image runs from the interpreter entry to
+   the halt address without any fault and WITHOUT REACHING THE TRAP, in exactly
+   ximage_steps steps: every call executed from the call trampoline or from JIT
+   code is a tagged call (cficall registers exactly the return address), every
+   JIT method return goes through the check sequence, which passes; the CFI stack
+   is empty again at exit.  With this theorem C01 is proved, over the emitted
+   files, for ALL FIVE generator variants. *)
+Theorem C01_fixer_image_from_files : forall c script img,
+  successful c script img -> c_variant c = GFixer -> c_data_reg c <> 6 ->
+  forall L s0, Init c img (xNtot c img) L s0 -> code_lo L = int_start_al c ->
+    code_hi L - code_lo L < 2147483648 - 2048 -> pics_encodable img ->
+    (forall r o, In (r, o) int_slots -> 0 <= rget s0 r < W64) ->
+    exists s' eh, map fst eh = im_elements img /\ Forall (fun x => xhit_ok (fst x) (snd x)) eh /\
+      run (gv c) L (ximage_steps img eh) s0 = (Next s', ximage_steps img eh) /\ pc s' = halt_at L /\
+      (forall r, 0 <= r -> wr c r = false -> ~ xclob c r -> rget s' r = rget s0 r) /\
+      mem_frame c L s0 s' (stk_hi L - xNtot c img) (stk_hi L) /\ dom s' = 0 /\ cfi s' = [].
+Proof. exact fixer_image_from_files. Qed.
+
+Theorem C01_fixer_image_from_files_nonvacuous :
+  (exists s' n, run (gv wcfg_fixer2) wL_x n ws0_x = (Next s', n) /\ pc s' = halt_at wL_x /\ dom s' = 0 /\ cfi s' = []) /\
+  Init wcfg_fixer2 wimg_x (xNtot wcfg_fixer2 wimg_x) wL_x ws0_x /\
+  existsb (fun e => match e with EPic _ => true | _ => false end) (im_elements wimg_x) = true /\
+  existsb (fun m => negb (m_is_leaf m)) (im_methods wimg_x) = true.
+Proof. split; [exact fixer_image_from_files_nonvacuous|]. split; [exact ws0_init_x|exact wimg_shape_x]. Qed.
+
+Print Assumptions C01_fixer_image_from_files.
+Print Assumptions C01_fixer_image_from_files_nonvacuous.
 Print Assumptions C01_rimifull_image_from_files.
 Print Assumptions C01_rimifull_image_from_files_nonvacuous.
 Print Assumptions C01_rimiss_image_from_files.
